@@ -9,6 +9,7 @@
 package transform // import "go.opentelemetry.io/otel/exporters/otlp/otlplog/otlploghttp/internal/transform"
 
 import (
+	"math"
 	"time"
 
 	cpb "go.opentelemetry.io/proto/otlp/common/v1"
@@ -86,6 +87,17 @@ func ResourceLogs(records []log.Record) []*lpb.ResourceLogs {
 	return resLogs
 }
 
+// clampUint32 converts a count to the uint32 range of the OTLP field.
+func clampUint32(v int) uint32 {
+	if v < 0 {
+		return 0
+	}
+	if int64(v) > math.MaxUint32 {
+		return math.MaxUint32
+	}
+	return uint32(v) // nolint: gosec  // Overflow/Underflow checked.
+}
+
 // LogRecord returns an OTLP LogRecord generated from record.
 func LogRecord(record log.Record) *lpb.LogRecord {
 	r := &lpb.LogRecord{
@@ -97,7 +109,7 @@ func LogRecord(record log.Record) *lpb.LogRecord {
 		Body:                 LogAttrValue(record.Body()),
 		Attributes:           make([]*cpb.KeyValue, 0, record.AttributesLen()),
 		Flags:                uint32(record.TraceFlags()),
-		// TODO: DroppedAttributesCount: /* ... */,
+		DroppedAttributesCount: clampUint32(record.DroppedAttributes()),
 	}
 	record.WalkAttributes(func(kv api.KeyValue) bool {
 		r.Attributes = append(r.Attributes, LogAttr(kv))
